@@ -1,7 +1,152 @@
 import AmqModel.Model.Url
+import AmqModel.Lemmas.Url
+/-!
+# C19 — an AMQP URL means the same connection parameters for every URL
+Property theorems only (helper lemmas in `AmqModel/Lemmas/Url.lean`).
+-/
 namespace AmqModel.Props.C19
 open AmqModel.Url
 
-theorem placeholder : percentDecode [] = [] := rfl
+/-- Percent-decoding inverts percent-encoding for every byte string. -/
+theorem percent_roundtrip (bs : Bytes) (h : ∀ b ∈ bs, b < 256) :
+    percentDecode (percentEncode bs) = bs :=
+  percentDecode_percentEncode bs h
+
+/-- Bytes that are not `%` are copied unchanged (so unreserved characters mean themselves). -/
+theorem percentDecode_plain (bs : Bytes) (h : ∀ b ∈ bs, b ≠ 37) : percentDecode bs = bs :=
+  percentDecode_of_no_percent bs h
+
+/-- Integer parameters: exactly the decimal numerals (optional leading `+`) with value `≤ top`. -/
+theorem parseUnsigned_digits (top : Nat) (ds : Bytes) (hne : ds ≠ []) (hd : ∀ d ∈ ds, 48 ≤ d ∧ d ≤ 57) :
+    parseUnsigned top ds = (match digitsVal ds 0 with
+      | some v => if v ≤ top then some v else none
+      | none => none) ∧ (digitsVal ds 0).isSome :=
+  ⟨parseUnsigned_of_digits top ds hne hd, digitsVal_isSome ds hd 0⟩
+
+theorem parseUnsigned_rejects (top : Nat) (s : Bytes) (d : Nat) (hd : d ∈ s) (h : ¬(48 ≤ d ∧ d ≤ 57))
+    (hplus : s.head? ≠ some 43 ∨ d ∈ s.tail) : parseUnsigned top s = none :=
+  parseUnsigned_none_of_mem top s d hd h hplus
+
+/-- Defaults: no userinfo, no host, no port, no path, no query. -/
+theorem defaults (allow : Bool) (secure : Bool) (p : Parts)
+    (hp : p.parsed = true) (hs : p.scheme = if secure then kAmqps else kAmqp)
+    (hu : p.username = []) (hpw : p.password = none)
+    (hh : p.host = none ∨ p.host = some []) (hcb : p.cannotBeABase = false)
+    (hport : p.port = none) (hsegs : p.segs = none ∨ p.segs = some [[]]) (hq : p.query = []) :
+    openUrl allow p =
+      if !secure && !allow then .error .insecureUrl
+      else .ok { secure := secure, host := kLocalhost, port := if secure then 5671 else 5672,
+                 auth := .plain kGuest kGuest, vhost := kSlash, heartbeat := 60,
+                 channelMax := 0, timeoutMs := none } := by
+  have hdec : decode p = .ok defaultOpts := by
+    rw [decode_eq_of_segs_ok p (by rcases hsegs with h | h <;> simp [h])]
+    rcases hsegs with h | h <;> simp [h, hu, hpw, hq, decodeQuery, defaultOpts]
+  have hhost : hostOf p = kLocalhost := by simp [hostOf, hh]
+  rw [openUrl_eq allow p hp (by simp [hcb]), hdec, hhost, hport]
+  cases secure <;> cases allow <;> simp [hs, kAmqp_ne_kAmqps.symm, defaultOpts]
+
+/-- Host, port and vhost are taken from the URL when present (vhost percent-decoded). -/
+theorem explicit_parts (p : Parts) (d : Decoded) (h : openUrl true p = .ok d) :
+    (∀ hst, p.host = some hst → hst ≠ [] → d.host = hst) ∧
+    (∀ n, p.port = some n → d.port = n) ∧
+    (p.port = none → d.port = if d.secure then 5671 else 5672) ∧
+    (∀ v more, p.segs = some (v :: more) → v ≠ [] → d.vhost = percentDecode v ∧ more = []) ∧
+    ((p.segs = none ∨ p.segs = some [] ∨ p.segs = some [[]]) → d.vhost = kSlash) ∧
+    (d.secure = true ↔ p.scheme = kAmqps) := by
+  obtain ⟨o, hdec, hhost, hport, hvh, hsec⟩ := openUrl_ok_inv h
+  have hsegs := decode_ok_segs hdec
+  have hvhost := decode_vhost hdec
+  refine ⟨?_, ?_, ?_, ?_, ?_, hsec⟩
+  · intro hst h1 h2
+    rw [hhost]; simp [hostOf, h1, h2]
+  · intro n h1
+    rw [hport, h1]; rfl
+  · intro h1
+    rw [hport, h1]; rfl
+  · intro v more h1 h2
+    rw [hvh, hvhost, h1]
+    refine ⟨by simp [h2], ?_⟩
+    rcases hsegs with h3 | h3 | ⟨w, h3⟩ <;> rw [h1] at h3 <;> simp at h3
+    exact h3.2
+  · intro h1
+    rw [hvh, hvhost]
+    rcases h1 with h1 | h1 | h1 <;> simp [h1]
+
+/-- Credentials: either one alone defaults the other to `guest`; both percent-decoded; with
+    neither, guest/guest — unless a query parameter selects EXTERNAL. -/
+theorem credentials (p : Parts) (o : Opts) (h : decode p = .ok o)
+    (hne : ∀ v, (kAuthMechanism, v) ∉ p.query) :
+    o.auth =
+      if p.username ≠ [] ∨ p.password.isSome then
+        .plain (percentDecode (if p.username = [] then kGuest else p.username))
+               (percentDecode (p.password.getD kGuest))
+      else .plain kGuest kGuest := by
+  rw [decode_eq_of_segs_ok p (decode_ok_segs h)] at h
+  rw [decodeQuery_auth_of_no_key hne h]
+
+/-- `auth_mechanism=external` anywhere in the query wins over any userinfo. -/
+theorem external_wins (p : Parts) (o : Opts) (h : decode p = .ok o)
+    (hx : (kAuthMechanism, kExternal) ∈ p.query) : o.auth = .external := by
+  rw [decode_eq_of_segs_ok p (decode_ok_segs h)] at h
+  exact decodeQuery_external hx h
+
+/-- For repeated numeric parameters the last one wins. -/
+theorem last_wins_heartbeat (o o' : Opts) (q : List (Bytes × Bytes)) (v : Bytes)
+    (rest : List (Bytes × Bytes)) (hrest : ∀ w, (kHeartbeat, w) ∉ rest)
+    (h : decodeQuery o (q ++ (kHeartbeat, v) :: rest) = .ok o') :
+    parseUnsigned 65535 v = some o'.heartbeat :=
+  decodeQuery_last_heartbeat hrest h
+
+/-- The first failing query pair decides the error; later pairs are not looked at. -/
+theorem first_failing_pair_decides (o o1 : Opts) (good rest : List (Bytes × Bytes)) (bad : Bytes × Bytes)
+    (e : Err) (hg : decodeQuery o good = .ok o1) (hb : decodeQuery o1 [bad] = .error e) :
+    decodeQuery o (good ++ bad :: rest) = .error e :=
+  decodeQuery_first_error hg hb
+
+/-- Rejections, each with its specific error. -/
+theorem reject_scheme (allow : Bool) (p : Parts) (hp : p.parsed = true)
+    (hh : ¬((p.host = none ∨ p.host = some []) ∧ p.cannotBeABase = true))
+    (hs : p.scheme ≠ kAmqp ∧ p.scheme ≠ kAmqps) :
+    openUrl allow p = .error .invalidUrlScheme := by
+  rw [openUrl_eq allow p hp hh, if_neg hs.1, if_neg hs.2]
+
+theorem reject_extra_segments (p : Parts) (v w : Bytes) (more : List Bytes)
+    (h : p.segs = some (v :: w :: more)) : decode p = .error .extraUrlPathSegments :=
+  decode_extra_segments p v w more h
+
+theorem reject_unknown_parameter (o : Opts) (k v : Bytes) (rest : List (Bytes × Bytes))
+    (hk : k ≠ kHeartbeat ∧ k ≠ kChannelMax ∧ k ≠ kConnectionTimeout ∧ k ≠ kAuthMechanism) :
+    decodeQuery o ((k, v) :: rest) = .error (.urlUnsupportedParameter k) := by
+  rw [decodeQuery, if_neg hk.1, if_neg hk.2.1, if_neg hk.2.2.1, if_neg hk.2.2.2]
+
+theorem reject_other_mechanism (o : Opts) (v : Bytes) (rest : List (Bytes × Bytes)) (hv : v ≠ kExternal) :
+    decodeQuery o ((kAuthMechanism, v) :: rest) = .error (.urlInvalidAuthMechanism v) := by
+  rw [decodeQuery, if_neg kHeartbeat_ne_kAuthMechanism.symm, if_neg kChannelMax_ne_kAuthMechanism.symm,
+    if_neg kConnectionTimeout_ne_kAuthMechanism.symm, if_pos rfl, if_neg hv]
+
+theorem reject_bad_numbers (o : Opts) (v : Bytes) (rest : List (Bytes × Bytes)) :
+    (parseUnsigned 65535 v = none →
+      decodeQuery o ((kHeartbeat, v) :: rest) = .error .urlParseHeartbeat ∧
+      decodeQuery o ((kChannelMax, v) :: rest) = .error .urlParseChannelMax) ∧
+    (parseUnsigned 18446744073709551615 v = none →
+      decodeQuery o ((kConnectionTimeout, v) :: rest) = .error .urlParseConnectionTimeout) := by
+  refine ⟨fun h => ⟨?_, ?_⟩, fun h => ?_⟩
+  · rw [decodeQuery, if_pos rfl, h]
+  · rw [decodeQuery, if_neg kHeartbeat_ne_kChannelMax.symm, if_pos rfl, h]
+  · rw [decodeQuery, if_neg kHeartbeat_ne_kConnectionTimeout.symm,
+      if_neg kChannelMax_ne_kConnectionTimeout.symm, if_pos rfl, h]
+
+/-- The secure-only entry points reject every `amqp://` URL that decodes, with InsecureUrl, and
+    otherwise behave exactly like the insecure ones. -/
+theorem secure_only (p : Parts) :
+    (∀ d, openUrl true p = .ok d → d.secure = false → openUrl false p = .error .insecureUrl) ∧
+    (∀ d, openUrl true p = .ok d → d.secure = true → openUrl false p = .ok d) ∧
+    (∀ e, openUrl true p = .error e → openUrl false p = .error e) ∧
+    (∀ d, openUrl false p = .ok d → d.secure = true) :=
+  ⟨openUrl_insecure_rejected, openUrl_secure_same, openUrl_error_same, openUrl_false_secure⟩
+
+example : (openUrl true ⟨true, false, kAmqp, [117, 115, 37, 54, 53, 114], some [112, 37, 52, 48, 115, 115], some [104], some 99,
+    some [[118, 37, 50, 102, 104]], [(kHeartbeat, [53]), (kChannelMax, [48, 48, 55])]⟩).toOption
+  = some ⟨false, [104], 99, .plain [117, 115, 101, 114] [112, 64, 115, 115], [118, 47, 104], 5, 7, none⟩ := by decide
 
 end AmqModel.Props.C19
